@@ -793,7 +793,7 @@ pub fn launcher_k<K: Kind>(args: &[String]) -> i32 {
     let mut big_info = serde_json::json!(null);
     let mut big_failures: Vec<Failure> = vec![];
     if BIG_PROPS.contains(&id.as_str()) && !args.iter().any(|a| a == "--no-big") {
-        let big_total: u64 = arg(args, "--big").and_then(|s| s.parse().ok()).unwrap_or(if tier == Tier::Thorough { 8000 } else { 640 });
+        let big_total: u64 = arg(args, "--big").and_then(|s| s.parse().ok()).unwrap_or(if tier == Tier::Thorough { 8000 } else if id == "C09" { 1600 } else { 640 });
         let mut kids = vec![];
         for i in 0..nworkers {
             let cases = big_total / nworkers + if i < big_total % nworkers { 1 } else { 0 };
